@@ -38,7 +38,8 @@ mkdir -p $WT/$DEMODIR; cp $OUT/m${K}_demo_test.go $WT/$DEMODIR/zz_demo_test.go
 echo "## demonstration on the changed code: (cd $DEMODIR && $DEMOCMD)" >>$LOG
 ( cd $RUNDIR && timeout 900 bash -c "$DEMOCMD" ) >$LOG.c 2>&1; RC_CHANGED=$?
 tail -40 $LOG.c >>$LOG
-git checkout -q -- .
+git checkout -q -- .; git clean -fdq   # (also the files the change ADDED)
+cp $OUT/m${K}_demo_test.go $WT/$DEMODIR/zz_demo_test.go
 echo "## demonstration on the unchanged code" >>$LOG
 ( cd $RUNDIR && timeout 900 bash -c "$DEMOCMD" ) >$LOG.u 2>&1; RC_CLEAN=$?
 tail -15 $LOG.u >>$LOG
